@@ -2,6 +2,7 @@ package oracle
 
 import (
 	"fmt"
+	gopath "path"
 	"strconv"
 	"strings"
 
@@ -695,6 +696,12 @@ type Module struct {
 func (in *Interp) SetFiles(files map[string]*Program) { in.files = files }
 
 func (in *Interp) load(path string) *Module {
+	// a local import is resolved against the directory of the importing file; a file is one module however it is reached
+	if strings.HasSuffix(path, ".tsh") && in.cur != nil && strings.Contains(in.cur.Name, "/") {
+		path = gopath.Join(gopath.Dir(in.cur.Name), path)
+	} else if strings.HasSuffix(path, ".tsh") {
+		path = gopath.Clean(path)
+	}
 	if m, ok := in.mods[path]; ok {
 		return m
 	}
@@ -710,12 +717,12 @@ func (in *Interp) load(path string) *Module {
 	}
 	m := &Module{Name: path, Globals: scope{}, Funcs: map[string]*FuncDef{}, Imports: map[string]*Module{}}
 	in.mods[path] = m
+	saved := in.cur
+	in.cur = m
 	for _, im := range p.Imports {
 		m.Imports[im.Alias] = in.load(im.Path)
 	}
 	// the top-level code of a file runs once, when the file is first imported
-	saved := in.cur
-	in.cur = m
 	in.block(p.Body, false)
 	in.cur = saved
 	return m
